@@ -1,5 +1,9 @@
 import Martian.Lemmas.Mitm
 import Martian.Generated.Mitm
+import Martian.Props.C06.Hostname
+import Martian.Props.C06.Normalise
+import Martian.Props.C06.Sched
+import Martian.Props.C06.Facts
 /-!
 C06 — Forged certificates verify for the requested host under the configured CA.
 Only property theorems and non-vacuity examples live here.
@@ -7,8 +11,12 @@ Only property theorems and non-vacuity examples live here.
 Quantifiers: every host byte string (`hostname`, as the SNI or the CONNECT authority gives it),
 every time `now` (an `Int`, ms; times in a history need not be monotone), every cache state reachable
 by any history of requests (`run`), every schedule of the two atomic steps of N concurrent requesters
-(`runSched`). "Verifies" is the abstract `verifiesFor` (name/IP match, window, CA signature); RSA, x509
-and ASN.1 are trusted and exercised by the harness with Go's real verifier and real handshakes.
+(`runSched`; `runF` in Props/C06/Sched.lean is the finer cut with a clock that moves between steps).
+"Verifies" is `verifiesFor`: the NAME part is the transcription of Go's `VerifyHostname`
+(`verifyHostname`; what it accepts on issued certificates is characterised in Props/C06/Hostname.lean),
+the WINDOW part is `NotBefore ≤ now ≤ NotAfter` on whole-second bounds, the CA signature and the key
+are two trusted bits (RSA, x509 chain building, ASN.1 are exercised by the harness with Go's real
+verifier and real handshakes).
 
 The model follows the **repaired** code (repo-patches/C06-fix-refuse-empty-host.patch);
 `empty_host_served_before_fix` is the defect on the code before the repair.
@@ -293,6 +301,51 @@ theorem served_cert_right_in_every_history (cfg : Config) (rs : List Req) (r : R
     · exact horg _ _ (mem_of_lookup hl)
     · rw [hc]; rfl
 
+
+/-! ### "valid for exactly that host" -/
+
+/-- **Exactly that host, in every history.** The certificate served for a request whose port-stripped
+host `k` is an IP literal verifies for a host string `h` iff `h` (brackets optional) is the same
+address; if `k` is a plain DNS name, iff `h` is not an IP literal and equals `k` up to ASCII letter
+case and one trailing dot. No other name is covered (no wildcard, no second SAN). -/
+theorem served_cert_valid_for_exactly_that_host (cfg : Config) (rs : List Req) (r : Req) {c : Cert} {f : Bool}
+    (h : (serve cfg r (run cfg rs {})).2 = .served c f) (other : Bytes) :
+    (∀ ip, parseIP (normalise r.host) = some ip →
+      (verifyHostname c other = true ↔ parseIP (stripBrackets other) = some ip)) ∧
+    (parseIP (normalise r.host) = none → PlainName (normalise r.host) →
+      (verifyHostname c other = true ↔
+        parseIP (stripBrackets other) = none ∧ toLower (trimDot other) = toLower (normalise r.host))) := by
+  obtain ⟨_, hsan, _, hca, hkey, _⟩ := served_cert_right_in_every_history cfg rs r h
+  have hg : GoodFor (normalise r.host) c := ⟨hsan, hca, hkey⟩
+  exact ⟨fun ip hk => issued_ip_exact hg hk other, fun hk hp => issued_dns_exact hg hk hp other⟩
+
+/-- The listed spellings end to end, DNS name × letter case × port: for a plain name `d` in any case
+mix `d'`, with any port, the certificate served — fresh or from the cache, in any history — verifies
+for `d` at the time of the request. -/
+theorem dns_any_case_any_port_verifies (cfg : Config) (rs : List Req) (d d' p : Bytes) (now : Int) {c : Cert} {f : Bool}
+    (hv : 1000 ≤ cfg.validity) (hcase : toLower d' = toLower d)
+    (hd : PlainName d') (hnip : parseIP d' = none) (hnipd : parseIP (stripBrackets d) = none)
+    (d1 : colon ∉ d') (d2 : lbr ∉ d') (d3 : rbr ∉ d') (p1 : colon ∉ p) (p2 : lbr ∉ p) (p3 : rbr ∉ p)
+    (h : (serve cfg (.forHost (d' ++ colon :: p) [] now) (run cfg rs {})).2 = .served c f) :
+    verifiesFor c d now = true := by
+  have hn : normalise (d' ++ colon :: p) = d' := normalise_host_port d1 d2 d3 p1 p2 p3
+  have hne : d' ≠ [] := validPattern_ne_nil hd.1
+  have hdot : d' ≠ [dot] := by
+    intro e; rw [e] at hd; revert hd; decide
+  have hserv : Servable (d' ++ colon :: p) := servable_host_port hne hdot d1 d2 d3 p1 p2 p3
+  obtain ⟨_, hsan, _, hca, hkey, hver⟩ := served_cert_right_in_every_history cfg rs _ h
+  have hver' := hver hv hserv
+  simp only [Req.host, List.isEmpty_nil, if_true, Req.time, hn] at hver' hsan
+  have hg : GoodFor d' c := ⟨hsan, hca, hkey⟩
+  have hname : verifyHostname c d = true :=
+    issued_verifies_any_case hg hnip hne hdot d hnipd hcase.symm
+  have hdne : d ≠ [] := by
+    intro e; rw [e] at hcase; exact hne (toLower_eq_nil.mp hcase)
+  simp only [verifiesFor, Bool.and_eq_true] at hver' ⊢
+  cases d with
+  | nil => exact absurd rfl hdne
+  | cons x xs => exact ⟨⟨⟨by simp, hname⟩, hver'.1.2⟩, hver'.2⟩
+
 /-! ### concurrent handshakes -/
 
 /-- N requesters run `Config.cert` concurrently as two atomic steps each (lookup+verify under the
@@ -318,6 +371,29 @@ theorem concurrent_own_host (cfg : Config) (hosts : List Bytes) (s : State) (hc 
   cases o with
   | refused => exact hg
   | served c f => exact ⟨hg.1, hg.2.1.1, hg.2.1.2.1, hg.2.1.2.2, hg.2.2⟩
+
+
+/-- The fine-grained schedule theorem started from the cache any history leaves behind (the hypothesis of
+`served_under_every_fine_schedule` holds in every reachable state of a fresh `Config`). -/
+theorem reachable_cache_good (cfg : Config) (rs : List Req) :
+    ∀ k c, (k, c) ∈ (run cfg rs {}).cache → GoodFor k c ∧ c.org = cfg.org := by
+  intro k c hm
+  exact ⟨(cacheInv_run cfg rs cacheInv_init k c hm).1, org_in_every_history cfg rs k c hm⟩
+
+/-- Concurrent handshakes after any history, every fine-grained schedule, time moving between steps: each
+requester that has returned holds a certificate for its own host that was valid when checked. -/
+theorem concurrent_after_any_history (cfg : Config) (rs : List Req) (hosts : List Bytes) (t0 : Int)
+    (sched : List (Nat × Nat)) (i : Nat) (hostname : Bytes) (c : Cert) (f : Bool) (tchk tret : Int)
+    (hh : hosts[i]? = some hostname) (hv : 1000 ≤ cfg.validity) (hs : Servable hostname)
+    (hd : (runF cfg sched { st := run cfg rs {}, clock := t0, threads := hosts.map FPc.start }).threads[i]? =
+      some (.done (.served c f) tchk tret)) :
+    (c.names, c.ips) = sanFor (normalise hostname) ∧ c.org = cfg.org ∧ tchk ≤ tret ∧
+      verifiesFor c (normalise hostname) tchk = true ∧
+      (verifiesFor c (normalise hostname) tret = true ↔ tret ≤ c.notAfter) := by
+  have h := served_under_every_fine_schedule cfg hosts (run cfg rs {}) t0 (reachable_cache_good cfg rs) sched i hostname _ tchk tret hh hd
+  obtain ⟨_, hsan, _, _, horg, hle, hrest⟩ := h
+  obtain ⟨h1, h2, _⟩ := hrest hv hs
+  exact ⟨hsan, horg, hle, h1, h2⟩
 
 /-- The sequential function is the two steps run back to back (so the schedule semantics really is
 `Config.cert` cut at its lock boundaries). -/
